@@ -963,8 +963,27 @@ def unfrozen_matcher(finding, payload):
             and op[0] in ('setattr', 'delattr') and op[2] not in [f['name'] for f in merged_fields(case, cls)])
 
 
+def inherited_order_matcher(finding, payload):
+    """C11-inherited-order: < <= > >= of a class that is not itself decorated with order=True come from the nearest order=True
+    class of its MRO and compare THAT class's fields: only when that class has other compare fields than the instance's class"""
+    if finding.get('matcher', {}).get('id') != 'order_methods_inherited_from_class_with_other_fields':
+        return False
+    case, v = payload['case'], payload.get('violation', {})
+    d, cls, op = v.get('detail', {}), v.get('cls'), v.get('op') or [None, None]
+    if cls is None or op[0] != 'cmp' or op[1] not in ('lt', 'le', 'gt', 'ge') \
+            or d.get('clause') != f'{op[1]} is the comparison of the tuples of fields':
+        return False
+    ch = chain_of(case, cls)
+    prov = next((k for k in ch if k['deco'] is not None and opt_of(k, 'order', False)), None)
+    if prov is None or prov is ch[0]:
+        return False
+    mine = [f['name'] for f in merged_fields(case, cls) if f['compare']]
+    theirs = [f['name'] for f in merged_fields(case, prov['id']) if f['compare']]
+    return mine != theirs
+
+
 def c11_matcher(finding, payload):
-    return initfalse_matcher(finding, payload) or unfrozen_matcher(finding, payload)
+    return initfalse_matcher(finding, payload) or unfrozen_matcher(finding, payload) or inherited_order_matcher(finding, payload)
 
 
 def initfalse_matcher(finding, payload):
